@@ -73,7 +73,7 @@ REG = {
                         "batch FRI (batch_fri/verifier.rs) is not in this run"],
     },
     "C03": {
-        "families": [("S", "fri")],
+        "families": [("S", "fri"), ("S", "plonkv")],
         "explanation": (
             "Bounded symbolic verification of mechanisms (DESIGN.md section 5, C03): element-by-element binding of the FRI "
             "part of a proof. The real verify_fri_proof runs in accept-path mode on a fully symbolic proof (ideal-hash "
@@ -107,7 +107,7 @@ REG = {
         "assumptions": ["whole-proof, gate/generator registries and CircuitData round trips are outside (far beyond the model checker's reach)"],
     },
     "C18": {
-        "families": [("K", "decoders")],
+        "families": [("K", "decoders"), ("S", "plonkv", None, r"\.shape\.")],
         "explanation": (
             "Bounded model checking (Kani/CBMC) of the primitive proof-decoder routines on ARBITRARY byte strings of the "
             "listed lengths: read_bool/u8/u32/usize, read_field, read_hash, read_target return Ok or Err exactly as "
@@ -115,5 +115,39 @@ REG = {
         "trusted_base": ["Kani 0.68 / CBMC 6.11 (cadical) model of the compiled code (dev profile, unwinding assertions on)"],
         "assumptions": ["shape validation and whole-proof decoders are not in this run yet",
                         "read_usize_vec (unvalidated length prefix) is reachable only from circuit-data decoders, outside C18's proof-decoder scope (DESIGN.md section 7)"],
+    },
+    "C02": {
+        "families": [("S", "plonk", None, r"^C02\."), ("S", "plonkv", None, r"\.identity\.|\.pin\.Pih|\.accept-path"),
+                     ("S", "gates", None, r"\.pin\.|\.determined|pins-public-input-hash")],
+        "explanation": (
+            "Bounded symbolic verification of mechanisms (DESIGN.md section 5, C02). (a) The real eval_vanishing_poly on a "
+            "circuit built by the real CircuitBuilder equals, for all openings/challenges/points (symbolic extension "
+            "elements), a reference vanishing expression written from the plonky2 paper: alpha-combination, in order, of "
+            "L_0(Z_i-1), the chunked partial-product checks and the selector-filtered gate constraints; a dropped or altered "
+            "term is a sat query replayed natively. (b) check_partial_products telescopes to the permutation grand-product "
+            "step and the prover's partial products satisfy it (polynomial identities, all sizes listed). (c) The real "
+            "verify_with_challenges in accept-path mode: its acceptance condition implies the vanishing identity for EVERY "
+            "challenge index and pins each lane of the public-input hash. (d) Every built-in gate's constraints pin each "
+            "generated wire (single perturbation) and, for small gates, all generated wires jointly (under-constraint "
+            "detection with the zero-product law)."),
+        "trusted_base": TB_COMMON + ["reference vanishing expression in symf/src/plonk.rs (oracle written by the checker's author from the paper)"],
+        "assumptions": ["probabilistic soundness (Schwartz-Zippel over the challenges, FRI proximity) is the published analysis and not re-proved",
+                        "lookup terms of the vanishing expression are not in this run (C08)",
+                        "sigma polynomials / copy-class cycle structure (get_sigma_map) and the adversarial-prover catalogue are not encoded"],
+    },
+    "C01": {
+        "families": [("S", "plonk", None, r"^C01\."), ("S", "gates", None, r"\.honest|\.lockstep\.base_batch1$")],
+        "explanation": (
+            "Bounded symbolic verification of mechanisms (DESIGN.md section 5, C01): completeness mechanisms. (a) The prover-"
+            "side eval_vanishing_poly_base_batch equals the verifier-side eval_vanishing_poly on base-field points of the LDE "
+            "coset for all openings and challenges (so an honest quotient satisfies the verifier's identity). (b) Every "
+            "gate's own generators produce rows satisfying that gate's constraints for all inputs. (c) Gadget semantics: for "
+            "each arithmetic/select/random-access/exponentiation/split gadget and each constant-folding special case of "
+            "CircuitBuilder::arithmetic, a one-gadget circuit is built by the real builder, the witness generated by the "
+            "real generate_partial_witness from symbolic inputs, and the output target equals the mathematical function "
+            "for all inputs (integer-valued inputs enumerated). (d) The prover's partial products satisfy the checks."),
+        "trusted_base": TB_COMMON,
+        "assumptions": ["the prover pipeline as a whole (FFT, Merkle, FRI prover, blinding, Keccak config) is exercised only by the repository's own tests",
+                        "configuration sweep (rates, cap heights, zero-knowledge) is outside; standard recursion config / a tiny config only"],
     },
 }
